@@ -16,3 +16,7 @@ Theorem C06_gfp X T : nofsub T -> nofix T ->
     forall d e, Den (bind empty X d) T e -> dle d e -> dle d (bden r).
 Proof. exact (C06_gfp_fixfree X T). Qed.
 Print Assumptions C06_fp. Print Assumptions C06_lfp. Print Assumptions C06_gfp.
+
+(** the iterator on a concrete monotone transformer: X := x0 | (x1 & X) from F stabilises at x0 after one step *)
+Example C06_instance : fp_f 5 F (fun x => bor (bvar 0) (band (bvar 1) x)) = Some (bvar 0).
+Proof. vm_compute. reflexivity. Qed.
